@@ -289,7 +289,17 @@ impl<'a, 'b> TagBlock<'a, 'b> {
             return Ok(None);
         }
 
-        let element = self.iter.next().expect("File shouldn't end before EOI.");
+        let element = match self.iter.next() {
+            Some(element) => element,
+            // A nested parser that failed may already have drained the shared iterator
+            None => {
+                return Error::with_msg(format!(
+                    "Unclosed block. {{% {} %}} tag expected.",
+                    self.end_tag
+                ))
+                .into_err();
+            }
+        };
 
         if element.as_rule() == Rule::EOI {
             return error_from_pair(
